@@ -103,7 +103,8 @@ type recorder struct {
 }
 
 func (r *recorder) add(kind string, parts ...any) {
-	all := append([]any{kind, r.conn.outLen()}, parts...)
+	off, turn := r.conn.outLenTurn()
+	all := append([]any{kind, off, turn}, parts...)
 	r.events = append(r.events, sx(all...))
 }
 
@@ -321,6 +322,9 @@ func runSession(c *caseT) *obsT {
 		if n == 0 {
 			continue
 		}
+		if c.lock && conn.over() {
+			break
+		}
 		conn.push(rest[:n])
 		rest = rest[n:]
 		if c.lock {
@@ -332,7 +336,9 @@ func runSession(c *caseT) *obsT {
 		}
 	}
 	if !o.hang {
-		conn.push(rest)
+		if !(c.lock && conn.over()) {
+			conn.push(rest)
+		}
 		conn.setEOF()
 		if !conn.waitFinished(idleTimeout) {
 			o.hang = true
